@@ -286,11 +286,15 @@ func Access(name string, write bool) {
 var knownWritten = map[string]bool{}
 
 func (rt *runtime) skipRead(name string, write bool) bool {
-	if knownWritten[name] {
+	if knownWritten[name] || rt.writtenHere[name] {
 		return false
 	}
 	if write {
 		rt.x.NewlyWritten = append(rt.x.NewlyWritten, name)
+		if rt.writtenHere == nil {
+			rt.writtenHere = map[string]bool{}
+		}
+		rt.writtenHere[name] = true // from here on, in this execution, accesses to the name are recorded
 		return false
 	}
 	rt.x.SkippedReads++
@@ -490,6 +494,7 @@ type runtime struct {
 	yield     chan struct{}
 	locks     map[interface{}]*lockState
 	lockOrder []interface{}
+	writtenHere map[string]bool
 	objs      map[uintptr]*objInfo
 	keep      []interface{}
 	vars      map[string]*varState
@@ -865,9 +870,16 @@ func stopAfterFinding(res *Result, pending int) bool {
 func fixpoint(f func() (Result, []string)) Result {
 	knownWritten = map[string]bool{}
 	sharedObjs = map[string]bool{}
+	carried := map[string]*Finding{}
 	for round := 1; ; round++ {
 		res, nw := f()
+		for k, v := range res.Findings {
+			if _, ok := carried[k]; !ok {
+				carried[k] = v
+			}
+		}
 		if len(nw) == 0 {
+			res.Findings = carried
 			for k := range knownWritten {
 				res.WrittenNames = append(res.WrittenNames, k)
 			}
@@ -908,6 +920,9 @@ func explore1(sc Scenario, maxBound int, budget int) (Result, []string) {
 			x := run(sc.Threads(), prefix, 10000)
 			res.SkippedReads += x.SkippedReads
 			if len(x.NewlyWritten) > 0 {
+				// the execution is judged before the round is abandoned: a lazily built
+				// table is written by the first execution of the process only
+				judge(sc, x, &res)
 				newly = append(newly, x.NewlyWritten...)
 				return
 			}
@@ -976,6 +991,7 @@ func exploreAll1(sc Scenario, budget int) (Result, []string) {
 		x := run(sc.Threads(), prefix, 10000)
 		res.SkippedReads += x.SkippedReads
 		if len(x.NewlyWritten) > 0 {
+			judge(sc, x, &res)
 			newly = append(newly, x.NewlyWritten...)
 			return
 		}
